@@ -86,6 +86,15 @@ def answer (w : List String) : String :=
     match get_opt_inf_table (i 1) (i 2) (ratOf (w.getD 3 "1")) (ratOf (w.getD 4 "1")) (ratOf (w.getD 5 "2")) (ratOf (w.getD 6 "2")) none with
     | .ok t => String.intercalate "," (t.map ratStr)
     | .error e => "raise:" ++ errStr e
+  | some "hopt" =>
+    -- hopt lmax c0 c1 w0 w1 r0 r1 ub uf
+    let er (x : ER) : String := match x with | .fin q => ratStr q | .inf => "inf"
+    let sh (t : List (List (List ER))) : String :=
+      String.intercalate "|" (t.map (fun lvl => String.intercalate ";" (lvl.map (fun row => String.intercalate "," (row.map er)))))
+    match get_hopt_table (i 1) [i 2, i 3] [ratOf (w.getD 4 "0"), ratOf (w.getD 5 "2")] [ratOf (w.getD 6 "0"), ratOf (w.getD 7 "2")]
+        (ratOf (w.getD 8 "1")) (ratOf (w.getD 9 "1")) with
+    | .ok (a, b) => sh a ++ " # " ++ sh b
+    | .error e => "raise:" ++ errStr e
   | some "beta" =>
     match beta (i 1) (i 2) with
     | .ok q => if q.den = 1 then toString q.num else s!"{q.num}/{q.den}"
